@@ -14,6 +14,7 @@ THEOREMS = [(M, "NQ.C08." + n) for n in [
     "templates_eq_nvdecomp", "expandSound_of_C07", "transpile_simulates_C07_partial",
     "mov_unknown_emits_ec", "f10_nonQ_register_asserts", "sets_only_scratch_gen", "seeded_scratch_registers",
     "seeded_cache_violates_scratch_ok", "seeded_index_loop_head", "branch_to_line_zero", "seeded_line_zero",
+    "transpile_pure", "transpile_retry_pure", "second_pass_identity_witness",
     "f10_counterexample_asserts", "f10_counterexample_stale", "f26_fixed_witness"]]
 TRANSLATORS = ["nv_expand", "nv_decomp"]
 LEVEL_TEXT = (
@@ -31,7 +32,7 @@ LEVEL_TEXT = (
     "counter-examples). The gate hypothesis is DISCHARGED for the generated table and a concrete semantics "
     "(expandSound_of_C07, transpile_simulates_C07_partial): gates apply the operator of their mnemonic; the proof "
     "uses C07's single_gates_eq / cnot_placements_eq / cphase_placements_eq and the kernel-decided tie "
-    "templates_eq_nvdecomp (Gen/NvExpand templates read over roles = Gen/NvDecomp sequences). Tie: expansion templates, class facts and padding regenerated "
+    "templates_eq_nvdecomp (Gen/NvExpand templates read over roles = Gen/NvDecomp sequences). Purity (transpile_pure, transpile_retry_pure): the output is a function of (subroutine, settings); an object influences a call only through look-ups in _register_values and membership in _used_registers, and a retry after a call that raised before any two-qubit gate equals a fresh run; tested on real objects by the history streams (helpers first, fail-then-retry, two calls, two objects). Tie: expansion templates, class facts and padding regenerated "
     "from the live code; syntactic correspondence (equal instruction lists / same exception class) between "
     "the compiled model and the real pass on structured programs, instruction soup and real-SDK output; "
     "model-free state-vector oracle on the real Executor.")
@@ -299,7 +300,7 @@ def run(ctx):
         syntactic("corpus", w_stale, dbg, False)
 
     # ---- structured programs: syntactic + oracle
-    n_struct = 12000 if T else 1500
+    n_struct = 12000 if T else 1300
     for k in range(n_struct):
         nq = rng.choice([1, 2, 2, 3, 3, 4, 5])
         loads = rng.random() < 0.25
@@ -324,6 +325,94 @@ def run(ctx):
         dbg = rng.random() < 0.5
         syntactic("struct-head0", sub2, dbg, rng.random() < 0.3)
         oracle_subs("struct-head0", [sub1, sub2], nq, dbg)
+    flush_syntactic()
+
+    # ---- transpiler-object histories (the model is a pure function of (subroutine, settings):
+    #      theorem transpile_pure; the real object must behave like a fresh one whatever was done to it)
+    VAN = {H.HC.T.cls_name(c) for c in H.VANILLA_CLASSES}
+
+    def judge_history(kind, h, nq, dbg):
+        res.count("history:" + kind)
+        ref_res = H.fresh_result(h["ref"], dbg, h["ref_hw"])
+        final = h["final"]
+        vanilla_ref = all(j["c"] in VAN for j in h["ref"])
+        if vanilla_ref:
+            syntactic("hist-" + kind, h["ref"], dbg, h["ref_hw"], real=final)
+        same = (final.get("err") == ref_res.get("err")) and (final.get("ok") == ref_res.get("ok"))
+        if kind in ("twice", "two-objs") and "ok" in final and vanilla_ref and final["ok"] != h["first"]["ok"]:
+            same = False  # a program without gates must come back unchanged from a second pass
+        if same:
+            return
+        inp = {"history": kind, "steps": h["desc"], "program": [h["ref"]], "text": H.show(h["ref"]),
+               "debug": dbg, "fresh": ref_res.get("err") or H.show(ref_res["ok"])[:60],
+               "reused": final.get("err") or H.show(final["ok"])[:60]}
+        what = "a re-used transpiler object does not behave like a fresh one (" + kind + ")"
+        if "ok" in final and vanilla_ref:
+            script = [rng.randrange(2) for _ in range(6)]
+            st = H.random_state(rng, nq)
+            r = H.oracle_compare([h["ref"]], nq, script, st, debug=dbg, given=[final])
+            if r is None or r == "skip":
+                # same behaviour, different text: only the tie (purity) is broken
+                res.disagreements.append({"stream": "transpile.history." + kind, "input": inp,
+                                          "model": "fresh object", "code": "re-used object"})
+                return
+            what += ": " + r["what"]
+            inp.update({"nq": nq, "script": script, "state": [[z.real, z.imag] for z in st]})
+        res.failures.append({"what": what, "kf": None, "input": inp})
+
+    # corpus of histories (seeded changes C08_9, C08_10): every helper once before a loop around a
+    # carbon-carbon gate; fail-then-retry; two calls; two objects
+    for dbg in (False, True):
+        for name in H.HELPERS:
+            judge_history("helpers", H.run_history("helpers", w_head, dbg, rng, names=[name, name]), 3, dbg)
+        w_retry = w_head[:9] + [H.ins(SET, Qr(7), H.imm(1)), H.ins("vanilla.RotZInstruction", Qr(7), H.imm(1), H.imm(5))] + \
+            [dict(j) for j in w_head[9:]]
+        w_retry[14] = H.ins("core.BltInstruction", Rr(0), Rr(2), H.imm(11))
+        h = H.run_history("retry-hw", w_retry, dbg, rng, fail_pos=10)
+        judge_history("retry-hw", h, 3, dbg)
+        w_plain = [H.ins(SET, Rr(1), H.imm(1)), H.ins(SET, Rr(2), H.imm(3)), H.ins(SET, Rr(0), H.imm(0)),
+                   H.ins(ADD, Rr(0), Rr(0), Rr(1)), H.ins("core.BltInstruction", Rr(0), Rr(2), H.imm(3)),
+                   H.ins("core.BgeInstruction", Rr(0), Rr(2), H.imm(6))]
+        for kind in ("twice", "two-objs"):
+            judge_history(kind, H.run_history(kind, w_plain, dbg, rng), 2, dbg)
+    n_hist = 1200 if T else 130
+    for k in range(n_hist):
+        nq = rng.choice([2, 3, 3, 4])
+        dbg = rng.random() < 0.6
+        kind = rng.choice(["helpers", "helpers", "retry-hw", "retry-fix", "twice", "two-objs"])
+        if kind == "helpers":
+            g = H.ProgGen(rng, nq)
+            h = H.run_history(kind, g.program(rng.randrange(1, 5)), dbg, rng)
+        elif kind in ("retry-hw", "retry-fix"):
+            g = H.ProgGen(rng, nq)
+            js = g.program(rng.randrange(1, 5), fail="hw" if kind == "retry-hw" else "mov-cc")
+            if g.fail_pos is None:
+                res.count("history-skipped:no-failing-point")
+                continue
+            h = H.run_history(kind, js, dbg, rng, fail_pos=g.fail_pos)
+            if h["desc"]["first"] == "ok":
+                res.count("history-skipped:first-call-did-not-fail")
+                continue
+        else:
+            if rng.random() < 0.6:
+                # programs without gates are vanilla AND NV programs: a second pass must change nothing
+                n = rng.choice([2, 3, 5, 8, 13])
+                js = []
+                for j in H.soup(rng, 3 * n):
+                    c = H.HC.class_by_name(j["c"])
+                    if j["c"] in VAN and not j["c"].startswith("vanilla.") and len(js) < n:
+                        js.append(j)
+                for j in js:
+                    if issubclass(H.HC.class_by_name(j["c"]),
+                                  (H.core.JmpInstruction, H.core.BranchUnaryInstruction, H.core.BranchBinaryInstruction)):
+                        j["o"][-1] = H.imm(rng.randrange(len(js) + 1))
+            else:
+                js = H.ProgGen(rng, nq).program(rng.randrange(1, 4))
+            h = H.run_history(kind, js, dbg, rng)
+            if h is None:
+                res.count("history-skipped:first-call-raised")
+                continue
+        judge_history(kind, h, nq, dbg)
     flush_syntactic()
 
     # ---- instruction soup (malformed stream included): syntactic only
